@@ -569,6 +569,10 @@ impl Check for C03 {
             "chain-crosses-modules",
         ]
     }
+    fn fuzz_families(&self, _tier: Tier) -> Vec<(&'static str, u64)> {
+        // libFuzzer runs per job (16 jobs), sized from the measured speed of the instrumented build
+        vec![("alias-chains", 15000), ("programs", 10000)]
+    }
     fn families(&self, tier: Tier) -> Vec<Family<'_>> {
         let cfg = GenCfg {
             docs: false,
